@@ -36,15 +36,18 @@ INSIDE, BELOW, ABOVE, DIRECT = 0, -1, 1, 2
 # ---- accuracy model -----------------------------------------------------------------
 # Hall & Meyer (1976): for the complete cubic spline on an arbitrary mesh with maximal
 # step H,  |f-s| <= 5/384 H^4 M4,  |f'-s'| <= 1/24 H^3 M4,  |f''-s''| <= 3/8 H^2 M4.
-# scipy's default is the not-a-knot spline, whose constants near the two ends are larger;
-# K_ACC is the safety factor in front of the Hall-Meyer constants.  Calibration on the
-# unchanged tree (quick+thorough, seeds 0..4; see C18.py summarize -> "acc_ratio_max"):
-# the largest observed  error / (Hall-Meyer bound with the effective local step)  was
-# 5.6 (k=0), 2.9 (k=1), 1.7 (k=2), always in the first/last interval of a table; K_ACC=40
-# leaves a factor >= 7.  A wrong table row or a wrong mode is an O(1) error, i.e.
-# 1e2..1e6 times the bound.
+# scipy's default is the not-a-knot spline on (after extensions, dropped non-finite points)
+# strongly non-uniform meshes, whose constants are larger, most of all for s''.  K_ACC[k]
+# is the safety factor in front of the Hall-Meyer constant for the k-th derivative.
+# Calibration (all proposed fixes applied, thorough tier seed 0, 25 840 sequences, 1.9e5
+# judged in-range entries; C18.py summarize -> "acc_ratio_max_in_units_of_Hall_Meyer_bound"):
+# largest observed  error / (Hall-Meyer bound with the effective local step)  = 7.3 (k=0),
+# 15.1 (k=1), 37.4 (k=2); quick tier seeds 0-4: <= 11 / 8 / 3.  K_ACC leaves a factor > 5.
+# A wrong table row or a wrong mode is an O(1) error in the value (O(1/h^k) in the
+# derivatives), i.e. 1e2..1e9 times the bound (unchanged tree with a damaged table: 2e4,
+# 4e6, 3e9 Hall-Meyer units).
 HM = (5.0 / 384.0, 1.0 / 24.0, 3.0 / 8.0)
-K_ACC = 40.0
+K_ACC = (60.0, 100.0, 250.0)
 # influence of a long interval j on the error in interval i decays like RHO^|i-j|
 # (the exact decay rate of cubic-spline fundamental functions is 2-sqrt(3)=0.268; 0.5 is
 # deliberately pessimistic)
@@ -311,7 +314,7 @@ class InterpModel:
         hmin = np.diff(self.xs)[idx][..., None]
         M4 = self.fn.bound(4)
         floor = 64.0 * EPS * (self.fn.bound(0) + self.fn.xabs * self.fn.bound(1)) / hmin ** k
-        return K_ACC * HM[k] * H ** (4 - k) * M4 + floor
+        return K_ACC[k] * HM[k] * H ** (4 - k) * M4 + floor
 
     # -- table-changing operations -------------------------------------------------------
     def _filtered(self, xs, rows):
@@ -359,6 +362,17 @@ class InterpModel:
                                           + (np.sum(self.fn.bad(hi)) if len(hi) else 0)),
                 "tol_x": 4.0 * (max(len(lo), len(hi)) + 2) * EPS
                 * max(abs(new_min), abs(new_max), abs(self.xmin), abs(self.xmax))}
+        # a gap that cannot hold the requested number of distinct floats: nothing is
+        # promised about the table (covered / partly extended), see C18.py D10
+        res = 4.0 * EPS * max(abs(new_min), abs(new_max), abs(self.xmin), abs(self.xmax))
+        sub = (len(lo) and self.xmin - new_min <= 4 * len(lo) * res) or \
+            (len(hi) and new_max - self.xmax <= 4 * len(hi) * res)
+        if sub:
+            info["sub_resolution"] = True
+            if self.adaptive:
+                self.pending = np.array([])
+                self.count = 0
+            return TableUpdate("undefined", info=info)
         xs = np.concatenate((lo, self.xs, hi))
         ev = lambda z: (self.fn.value_rows(z).reshape(-1, self.R) if len(z)  # noqa: E731
                         else np.empty((0, self.R)))
@@ -562,17 +576,24 @@ class InterpModel:
             lay[mask] = layer
             pr.layer |= lay
             # bound on |s - f| and |s'| next to that edge (used only inside the layer)
+            # (the stencil can span several table intervals of very different length, so
+            # the bound is taken where the stencil points are, not at the edge)
             if fn.has_bounds:
-                e0 = self.acc_bound(np.array([edge]), 0)[0]
-                e1 = self.acc_bound(np.array([edge]), 1)[0]
+                e0 = np.zeros(xm.shape + (R,))
+                e1 = np.zeros(xm.shape + (R,))
+                for kk in (-2, -1, 1, 2):
+                    pos = np.clip(xm + kk * dx, self.xmin, self.xmax)
+                    e0 = np.maximum(e0, self.acc_bound(pos, 0))
+                    e1 = np.maximum(e1, self.acc_bound(pos, 1))
                 m1 = fn.bound(1)
             else:
-                e0 = e1 = m1 = np.full(R, np.inf)
+                e0 = e1 = np.full(xm.shape + (R,), np.inf)
+                m1 = np.full(R, np.inf)
             if mode == "NONE":
                 if fn.has_bounds:
                     exp[mask] = fn.smooth(xm, order)
                 t = self._fd_tol(order, dx, xm)
-                t[layer] += S_FD[order] / dx ** order * e0
+                t[layer] += S_FD[order] / dx ** order * e0[layer]
                 t[nearbad[mask]] = np.inf
                 tol[mask] = t
             elif mode == "CONSTANT":
@@ -582,7 +603,7 @@ class InterpModel:
                                     / dx ** order, xm.shape + (R,)).copy()
                 # finite difference across the kink at the edge: |s(pos) - s(edge)| <=
                 # (M1 + E1) * 2dx
-                t[layer] += S_FD[order] / dx ** order * (m1 + e1) * 2.0 * dx
+                t[layer] += S_FD[order] / dx ** order * (m1 + e1[layer]) * 2.0 * dx
                 tol[mask] = t
             else:  # FUNCTION: the extrapolant is the end cubic itself
                 e = dspl(xm)
